@@ -20,8 +20,12 @@ def float_op(ex, op, a, b, st):
     if op == "/" and b.ty in (INT, FLOAT):
         zero = (b.t == 0)
         st.raise_if(zero, "ZeroDivisionError")
-    # exact cases: timedelta.total_seconds()/datetime.timestamp() feeding "* 1000000" are matched by lemmas
-    return Val(FLOAT, fresh("flt", R), **x)
+    # the result is an uninterpreted *function* of the operands (IEEE operations are deterministic): equal
+    # expressions over equal inputs denote equal floats, nothing else is assumed
+    fn = z3.Function({"+": "f_add", "-": "f_sub", "*": "f_mul", "/": "f_div"}[op], R, R, R)
+    ta = z3.ToReal(a.t) if a.ty == INT else a.t
+    tb = z3.ToReal(b.t) if b.ty == INT else b.t
+    return Val(FLOAT, fn(ta, tb), **x)
 
 
 def int_of_float(ex, v, st):
